@@ -142,6 +142,9 @@ func genActors(repo, out string) {
 	})
 	os := squash(src(findFunc(of, "UpdateTableState").Body))
 	b.WriteString("Definition observer_filtered_statuses : list string := [" + strings.Join(statuses, "; ") + "].\n")
+	// (after the repair recorded as F24) the filter is applied whenever a hand is attached, whatever the table's status
+	b.WriteString(fmt.Sprintf("Definition observer_filters_whenever_a_hand_is_attached : bool := %v.\n",
+		guarded && len(statuses) == 0 && strings.Contains(os, squash("if tableInfo.State.GameState != nil { tableInfo.State.GameState.AsObserver() }"))))
 	b.WriteString(fmt.Sprintf("Definition observer_filter_skipped_only_in_system_mode : bool := %v.\n", guarded && strings.Contains(os, squash("tableInfo.State.GameState.AsObserver()"))))
 	b.WriteString(fmt.Sprintf("Definition observer_filters_before_publishing : bool := %v.\n",
 		strings.Index(os, squash("tableInfo.State.GameState.AsObserver()")) >= 0 && strings.Index(os, squash("tableInfo.State.GameState.AsObserver()")) < strings.Index(os, squash("obr.onTableStateUpdated(tableInfo)"))))
